@@ -303,6 +303,8 @@ impl<H: Hal, T: Transport, const QUEUE_SIZE: usize> VirtIONetRaw<H, T, QUEUE_SIZ
         let token = unsafe { self.receive_begin(rx_buf)? };
         while self.poll_receive().is_none() {
             core::hint::spin_loop();
+            #[cfg(virtio_drivers_verif)]
+            crate::verif::emit(crate::verif::Event::Spin(1));
         }
         // SAFETY: This `rx_buf` is the same one passed to `receive_begin`.
         unsafe { self.receive_complete(token, rx_buf) }
